@@ -74,6 +74,8 @@ def main():
         sid = os.path.basename(os.path.dirname(d))
         if ids and sid not in ids:
             continue
+        if not os.path.exists(os.path.join(d, "meta.json")):
+            continue
         meta = json.load(open(os.path.join(d, "meta.json")))
         prop = meta["property"]
         if not clean():
